@@ -164,11 +164,13 @@ def code_outcome(op, sig):
     return ("match", tok(r))
 
 
-def enumerate_code(max_arity: int):
-    """All (operator, argument-type tuple) outcomes of the code for arity <= max_arity."""
+def enumerate_code(max_arity: int, only=None):
+    """All (operator, argument-type tuple) outcomes of the code for arity <= max_arity (`only`: restrict to these operator names)."""
     uni = all_types()
     out = {}
     for n, o in operators():
+        if only and n not in only:
+            continue
         arities = set()
         for s in o.signatures:
             k = len(s.types)
